@@ -1,10 +1,12 @@
 (* Props/C05.v -- property C05: encrypt then decrypt restores every string and stream.
    Statements only; proofs live in Proofs/CryptoProofs*.v.
    [P : prims] bundles the third-party primitives (MD5, SHA-2, AES block functions); [aes_ok P] is the one
-   law assumed of them: AES decryption inverts AES encryption on 16-byte blocks, which stay 16 bytes. *)
+   law assumed of them: for 16- and 32-byte keys AES decryption inverts AES encryption on 16-byte blocks,
+   which stay 16 bytes.  [C05_aes_inverse] proves that law for the Gallina AES the runner executes
+   ([concrete]), so every theorem below also holds outright for [P := concrete]. *)
 From LV Require Import Base.Bytes Model.Obj Model.Crypto.Word Model.Crypto.RC4 Model.Crypto.PKCS5
   Model.Crypto.Handler Proofs.CryptoProofs Proofs.CryptoProofsFilter Proofs.CryptoProofsObject
-  Proofs.CryptoProofsDoc Proofs.CryptoProofsExamples.
+  Proofs.CryptoProofsDoc Proofs.CryptoProofsExamples Proofs.CryptoProofsAES Model.Crypto.Concrete.
 
 (* lopdf's RC4: decrypting what was encrypted under the same key gives the message back, for every key
    the constructor accepts (1..256 bytes; any other length panics = None) and every message *)
@@ -100,6 +102,18 @@ Theorem C05_reject_leaves_unchanged :
   forall P d pw e, authenticate_raw_password P d pw = Err e -> doc_decrypt_raw P d pw = DErr e.
 Proof. exact reject_leaves_unchanged. Qed.
 
+(* The AES written from FIPS 197 (Model/Crypto/AES.v) is invertible: InvCipher (Cipher b) = b for every
+   16- or 32-byte key and every 16-byte block (InvSubBytes / InvShiftRows / InvMixColumns / AddRoundKey
+   inverses, induction over the round keys). *)
+Theorem C05_aes_inverse : aes_ok concrete.
+Proof. exact concrete_aes_ok. Qed.
+
+(* hence, for the executable model, with no hypothesis at all: *)
+Theorem C05_object_rt_concrete :
+  forall st id o ivs o' ivs',
+    encrypt_object concrete st id o ivs = Ok (o', ivs') -> decrypt_object concrete st id o' = Ok (norm_len st o).
+Proof. intros st id o ivs o' ivs'. apply object_rt. exact concrete_aes_ok. Qed.
+
 (* non-vacuity *)
 Theorem C05_example_rc4 :
   rc4 (bs "Key") (bs "Plaintext") = Some [xbb; xf3; x16; xe8; xd9; x40; xaf; x0a; xd3] /\
@@ -142,6 +156,8 @@ Print Assumptions C05_object_rt_exact.
 Print Assumptions C05_document_rt_partial.
 Print Assumptions C05_document_objects_exact.
 Print Assumptions C05_reject_leaves_unchanged.
+Print Assumptions C05_aes_inverse.
+Print Assumptions C05_object_rt_concrete.
 Print Assumptions C05_example_rc4.
 Print Assumptions C05_example_pkcs5.
 Print Assumptions C05_example_document.
